@@ -62,10 +62,11 @@ def run(ctx, rep, tier):
             has_fail_state = p.valuation().get("self.generic_fail_state in self.dfa.states")
             entry = [e for e in evs[:i_sw] if e.kind == "RET_ENTRY_EMPTY"]
             if entry:
-                rep.check(all("self.generic_fail_state" in (e.a or "") for e in entry) and has_fail_state is True, "C10.b", fn, f"entry test answers FAIL in the fail state, OK otherwise [{pk}]",
+                # the number the machine rests at after FAIL: the generic fail state's index or, in a machine without one, a number no state carries
+                # (end() stores it before answering FAIL - C10.m; both default arms answer FAIL - below)
+                want_cmp = (lambda a: "self.generic_fail_state" in a) if has_fail_state is True else (lambda a: a.replace("[", "").replace("]", "") == "len(self.dfa.states)")
+                rep.check(has_fail_state is not None and all(want_cmp(e.a or "") for e in entry), "C10.b", fn, f"entry test answers FAIL in the fail state, OK otherwise [{pk}]",
                           f"the empty-chunk entry test compares the state with {[e.a for e in entry]}, not with the fail state")
-            if pre_rets and has_fail_state is False:
-                pre_rets = []        # no fail state in this machine: FAIL can never have been returned
             rep.check(not pre_rets, "C10.b", fn, f"return-before-switch [{pk}]",
                       "a return is emitted before the state switch: after FAIL, this call does not return FAIL "
                       f"({[e.text.strip() for e in pre_rets]})")
@@ -199,3 +200,84 @@ def run(ctx, rep, tier):
     _run_l05(ctx, rep, tier)
     from .shared import delegate
     delegate(ctx, rep, tier, "C05", ("C05.l",), "C10.i", "one advance per consumed byte also when a yield shares a transition with other actions (optimiser guard)")
+
+
+# ---------------------------------------------------------------------------------------------------------------- C10.l
+def _finished_stays_finished(ctx, rep, tier):
+    """C10.l (F-77): 'the program has finished here' is one predicate with two users. The transition INTO such a state answers DONE at once
+    (`immediate_done`) unless strict-done postpones the answer; the postponed answer is given by the state's own case of feed's switch. That case
+    must apply the same predicate before it emits the state's transitions: a regex's accepting state carries an explicit error-path Else, which
+    otherwise swallows every byte (FAIL) in front of the `return DONE` tail."""
+    import ast
+    model = ctx.model
+    rep.rule("C10.l", "feed's case for a state answers DONE under the predicate the transition into it uses for an immediate DONE (strict-done may only postpone DONE)")
+    tb = model.func("CodegenCtx._generate_transition_body")
+    sb = model.func("CodegenCtx._generate_switch_body")
+    imm = [n for n in ast.walk(tb) if isinstance(n, ast.Assign) and len(n.targets) == 1 and isinstance(n.targets[0], ast.Name) and n.targets[0].id == "immediate_done"]
+    if len(imm) != 1 or not (isinstance(imm[0].value, ast.BoolOp) and isinstance(imm[0].value.op, ast.And)):
+        rep.bad("C10.l", "CodegenCtx._generate_transition_body", "immediate_done = <conjunction>", "the immediate-done predicate is no longer a single conjunction: re-derive this rule")
+        return
+    pred = set()
+    for c in imm[0].value.values:
+        t = ast.unparse(c)
+        if "STRICT_DONE" in t:
+            continue
+        pred.add(t.replace("transition.target", "state"))
+    first_loop = next((i for i, s in enumerate(sb.body) if isinstance(s, ast.For)), len(sb.body))
+    hits = []
+    for i, s in enumerate(sb.body):
+        if not isinstance(s, ast.If) or s.orelse:
+            continue
+        conj = {ast.unparse(c) for c in s.test.values} if isinstance(s.test, ast.BoolOp) and isinstance(s.test.op, ast.And) else {ast.unparse(s.test)}
+        if conj != pred:
+            continue
+        emits = [ast.unparse(x) for x in s.body]
+        ok = len(s.body) == 2 and "_DONE;" in emits[0] and emits[0].startswith("result.add(") and emits[1] == "return result.value()" and i < first_loop
+        hits.append((s, ok))
+    rep.check(len(hits) == 1 and hits[0][1], "C10.l", "CodegenCtx._generate_switch_body", f"early `return DONE` under {sorted(pred)} before the transitions are emitted",
+              f"feed's case for a state does not answer DONE under the predicate of the immediate DONE ({sorted(pred)}) before emitting the state's transitions: with "
+              "-fstrict-done-token-generation `parser { /b/; }` fed 'b','a' returns OK, FAIL - the error-path Else of the regex's accepting state swallows the byte in front of the "
+              "`return DONE` tail (a literal's last state has no transitions and answers DONE)", line=sb.lineno)
+
+
+_run_l10 = run
+
+
+def run(ctx, rep, tier):
+    _run_l10(ctx, rep, tier)
+    _finished_stays_finished(ctx, rep, tier)
+
+
+# ---------------------------------------------------------------------------------------------------------------- C10.m
+def _end_fail_is_final(ctx, rep, tier):
+    """C10.m (F-80): every path of end()'s per-state body that answers FAIL stores the fail number first. At end-of-input nothing needs to lead to the
+    fail state by itself (a wait sends every mismatch, End included, back to its start; an unfinished `end` pattern rests in a live state): without
+    the store a later feed()/end() carries on with a live machine - `wait "ab"` fed x, end(), a, b answered OK FAIL OK DONE."""
+    rep.rule("C10.m", "end(): every FAIL answer of a state's body is preceded by a store of the fail number (the one feed's entry test compares with)")
+    q = "CodegenCtx._generate_end_switch_body"
+    fp = ctx.emit.enumerate(q)
+    n = 0
+    for p in fp.paths:
+        items = fp.lines(p)
+        if not items:
+            continue
+        evs = [e for e in events_of(items) if e.kind != "COMMENT"]
+        for i, e in enumerate(evs):
+            if e.kind == "RET" and e.a == "FAIL":
+                n += 1
+                prev = evs[i - 1] if i else None
+                nm = (prev.a or "").replace("[", "").replace("]", "") if prev is not None and prev.kind in ("SETSTATE", "SETSTATE_RAW") else None
+                ok = nm is not None and ("self.generic_fail_state" in nm or nm == "len(self.dfa.states)")
+                pk = ", ".join(f"{k}={'T' if v else 'F'}" for k, v in sorted(p.valuation().items()) if "accepting" in k or "generic_fail" in k)
+                rep.check(ok, "C10.m", q, f"FAIL tail stores the fail number [{pk}]",
+                          "end() answers FAIL for a state without storing the fail state: the machine stays live and later calls do not answer FAIL "
+                          "(`parser { wait \"ab\"; }`: feed(x) end() feed(a) feed(b) = OK FAIL OK DONE)")
+    rep.check(n >= 2, "C10.m", q, f"{n} FAIL tails examined", "no FAIL tail found in end()'s per-state body")
+
+
+_run_l11 = run
+
+
+def run(ctx, rep, tier):
+    _run_l11(ctx, rep, tier)
+    _end_fail_is_final(ctx, rep, tier)
